@@ -1,6 +1,7 @@
 import AgModel.Gen.Consts
 import AgModel.Proofs.Pad
 import AgModel.Proofs.Shred
+import AgModel.Proofs.ShredInstance
 import AgModel.Props.C15
 import AgModel.Exec.ShredEnv
 /-!
@@ -295,6 +296,22 @@ theorem present_untouched (env : Env) (v : Variant) (shreds : List (Option VShre
   · simp only [Option.some.injEq] at hfm
     rw [← hfm]
     exact fillAux_keeps _ _ _ _ i s hs
+
+/-! ### non-vacuity of the hypotheses -/
+
+/-- **The contracts `Env.Laws` are satisfiable**: `Proofs/ShredInstance.lean` constructs an `Env` (a trivially MDS
+    code whose recovery shards carry whole columns, identity cipher, injective list encoding as leaf id) and
+    proves every clause — for arbitrary `Nat` shards, all `nc`, all shard sizes. -/
+theorem laws_satisfiable : ∃ env : Env, env.Laws := ⟨Instance.env, Instance.laws⟩
+
+/-- `roundtrip` instantiated with the lawful instance: an unconditional statement (no `Env.Laws` hypothesis). -/
+theorem roundtrip_instance (v : Variant) (sl : Slice) (sk : Nat) (key : Bytes)
+    (hkey : key.length = KEY_BYTES) (hfit : (payloadBytes sl.parent sl.data).length ≤ v.maxData)
+    (hpar : ∀ s h, sl.parent = some (s, h) → s < 2 ^ 64 ∧ h.length = 32)
+    (present : Nat → Bool) (hcnt : 32 ≤ ((List.range 64).filter present).length) :
+    deshred Instance.env v (selectFrom present 0 (leaderOut Instance.env v sl sk key))
+      = .ok (⟨sl, (leaderTree Instance.env v sl key).root⟩, (leaderOut Instance.env v sl sk key).map some) :=
+  roundtrip Instance.env Instance.laws v sl sk key hkey hfit hpar present hcnt
 
 /-! ### non-vacuity (concrete evaluation in the kernel, toy `Env` of `AgModel/Exec/ShredEnv.lean`) -/
 
